@@ -29,8 +29,8 @@ VCViol(e) ==
           {V(IF cs[i][1] \notin DOMAIN e.fnconv THEN "function candidate is not a known function"
              ELSE IF ~e.fnconv[cs[i][1]] THEN "function candidate whose return type does not convert to the expected type"
              ELSE "function candidate does not start with the typed text")} ELSE {})
-  \cup (IF Pinned(e.cons) /\ kws # Admitted(e.cons, e.typed) THEN {V("keyword / boolean candidates are not exactly those the constraint admits")} ELSE {})
-  \cup (IF \E i \in refs : cs[i][3] = "unresolved" THEN {V("accepting a fitting reference candidate yields a reference that go-to-definition does not resolve")} ELSE {})
+  \cup (IF Pinned(ConsAt(e.cons, e.form)) /\ kws # Admitted(ConsAt(e.cons, e.form), e.typed) THEN {V("keyword / boolean candidates are not exactly those the constraint admits")} ELSE {})
+  \cup (IF \E i \in refs : cs[i][3] = "unresolved" THEN {V("accepting a fitting reference candidate yields a reference that go-to-definition does not resolve (" \o e.form \o ")")} ELSE {})
 
 TInit == l = 1 /\ bad = {}
 Step == /\ l <= Len(Trace) /\ l' = l + 1
